@@ -778,3 +778,118 @@ Proof. repeat split. Qed.
 Lemma invalid_survives_coercion_refuted_w :
   valid_prim PInt (JStr [53%N]) = false /\ coerce (JStr [53%N]) = Some [53%N] /\ wire_valid PInt [53%N] = true.
 Proof. repeat split. Qed.
+
+(* ---------- exclusion of explicit names ---------- *)
+Lemma find_map_kname (f : kw -> kw) n l : (forall k, kname_of (f k) = kname_of k) ->
+  find (fun k => kname_eqb (kname_of k) n) (map f l) = option_map f (find (fun k => kname_eqb (kname_of k) n) l).
+Proof.
+  intros Hf. induction l as [|k r IH]; [reflexivity|]. cbn [map find]. rewrite Hf.
+  destruct (kname_eqb (kname_of k) n); [reflexivity|exact IH].
+Qed.
+
+Lemma exclude_one_kname name k :
+  kname_of (match k with KProps ps => KProps (assoc_remove name ps) | KRequired ns => KRequired (remove_first name ns) | _ => k end) = kname_of k.
+Proof. destruct k; reflexivity. Qed.
+
+Lemma required_of_exclude_one name s :
+  required_of (exclude_one name s) = option_map (remove_first name) (required_of s).
+Proof.
+  unfold required_of, exclude_one. rewrite find_map_kname by (intros k; apply exclude_one_kname).
+  destruct (find _ s) as [k|]; [|reflexivity]. destruct k; reflexivity.
+Qed.
+
+Lemma props_of_exclude_one name s : props_of (exclude_one name s) = assoc_remove name (props_of s).
+Proof.
+  unfold props_of, exclude_one. rewrite find_map_kname by (intros k; apply exclude_one_kname).
+  destruct (find _ s) as [k|]; [|reflexivity]. destruct k; reflexivity.
+Qed.
+
+Lemma smem_remove_first_same name ns : unique_strs ns = true -> smem name (remove_first name ns) = false.
+Proof.
+  unfold smem. induction ns as [|x r IH]; [reflexivity|]. cbn [unique_strs remove_first]. intros H.
+  apply andb_true_iff in H. destruct H as [Hx Hr]. destruct (str_eqb name x) eqn:E.
+  - apply str_eqb_spec in E. subst. apply negb_true_iff in Hx. exact Hx.
+  - cbn [existsb]. rewrite E. apply IH. exact Hr.
+Qed.
+
+Lemma smem_remove_first_other n name ns : str_eqb n name = false -> smem n (remove_first name ns) = smem n ns.
+Proof.
+  unfold smem. intros Hne. induction ns as [|x r IH]; [reflexivity|]. cbn [remove_first].
+  destruct (str_eqb name x) eqn:E.
+  - apply str_eqb_spec in E. subst. cbn [existsb]. rewrite Hne. reflexivity.
+  - cbn [existsb]. rewrite IH. reflexivity.
+Qed.
+
+Lemma smem_remove_first_le n name ns : smem n ns = false -> smem n (remove_first name ns) = false.
+Proof.
+  unfold smem. induction ns as [|x r IH]; [reflexivity|]. cbn [remove_first existsb]. intros H.
+  apply orb_false_iff in H. destruct H as [H1 H2]. destruct (str_eqb name x); [exact H2|].
+  cbn [existsb]. rewrite H1. apply IH. exact H2.
+Qed.
+
+Lemma unique_remove_first name ns : unique_strs ns = true -> unique_strs (remove_first name ns) = true.
+Proof.
+  induction ns as [|x r IH]; [reflexivity|]. cbn [unique_strs remove_first]. intros H.
+  apply andb_true_iff in H. destruct H as [Hx Hr]. destruct (str_eqb name x); [exact Hr|].
+  cbn [unique_strs]. rewrite (IH Hr), andb_true_r. apply negb_true_iff. apply negb_true_iff in Hx.
+  apply (smem_remove_first_le x name r Hx).
+Qed.
+
+Lemma assoc_mem_remove_le {A} n name (ps : list (str * A)) : assoc_mem n ps = false -> assoc_mem n (assoc_remove name ps) = false.
+Proof.
+  unfold assoc_mem. induction ps as [|[k v] r IH]; [reflexivity|]. cbn [assoc_get assoc_remove].
+  destruct (str_eqb n k) eqn:E; [discriminate|]. intros H. destruct (str_eqb name k); [apply IH; exact H|].
+  cbn [assoc_get]. rewrite E. apply IH. exact H.
+Qed.
+
+Lemma assoc_mem_remove_other {A} n name (ps : list (str * A)) : str_eqb n name = false ->
+  assoc_mem n (assoc_remove name ps) = assoc_mem n ps.
+Proof.
+  unfold assoc_mem. intros Hne. induction ps as [|[k v] r IH]; [reflexivity|]. cbn [assoc_remove assoc_get].
+  destruct (str_eqb name k) eqn:E.
+  - apply str_eqb_spec in E. subst. rewrite Hne. exact IH.
+  - cbn [assoc_get]. destruct (str_eqb n k); [reflexivity|exact IH].
+Qed.
+
+Lemma str_eqb_false_sym a b : str_eqb a b = false -> str_eqb b a = false.
+Proof.
+  intros H. destruct (str_eqb b a) eqn:E; [|reflexivity]. apply str_eqb_spec in E. subst. rewrite str_eqb_refl in H. discriminate.
+Qed.
+
+(* after the exclusion neither required nor properties mention an excluded name; other names are untouched *)
+Lemma exclusion_clears names : forall s ns,
+  required_of s = Some ns -> unique_strs ns = true ->
+  exists ns', required_of (exclude_names names s) = Some ns' /\ unique_strs ns' = true /\
+    (forall n, smem n names = true -> smem n ns' = false /\ assoc_mem n (props_of (exclude_names names s)) = false) /\
+    (forall n, smem n names = false ->
+       smem n ns' = smem n ns /\ assoc_mem n (props_of (exclude_names names s)) = assoc_mem n (props_of s)).
+Proof.
+  induction names as [|name r IH]; intros s ns Hreq Hu.
+  - exists ns. cbn [exclude_names fold_left]. split; [exact Hreq|]. split; [exact Hu|]. split.
+    + intros n0 H0. discriminate.
+    + intros n0 _. split; reflexivity.
+  - cbn [exclude_names fold_left]. fold (exclude_names r (exclude_one name s)).
+    assert (Hreq1 : required_of (exclude_one name s) = Some (remove_first name ns)).
+    { rewrite required_of_exclude_one, Hreq. reflexivity. }
+    destruct (IH _ _ Hreq1 (unique_remove_first name ns Hu)) as [ns' [A [B [C D]]]].
+    exists ns'. split; [exact A|]. split; [exact B|]. split.
+    + intros n Hn. change (smem n (name :: r)) with (str_eqb n name || smem n r) in Hn. destruct (smem n r) eqn:Er.
+      * apply C. exact Er.
+      * destruct (D n Er) as [D1 D2]. rewrite D1, D2. rewrite orb_false_r in Hn. apply str_eqb_spec in Hn. subst n.
+        split; [apply smem_remove_first_same; exact Hu|]. rewrite props_of_exclude_one. apply assoc_mem_remove.
+    + intros n Hn. change (smem n (name :: r)) with (str_eqb n name || smem n r) in Hn. apply orb_false_iff in Hn. destruct Hn as [Hne Hr].
+      destruct (D n Hr) as [D1 D2]. rewrite D1, D2. split.
+      * apply smem_remove_first_other. exact Hne.
+      * rewrite props_of_exclude_one. apply assoc_mem_remove_other. exact Hne.
+Qed.
+
+Definition nm_filter : str := [102; 105; 108; 116; 101; 114].
+Definition nm_limit : str := [108; 105; 109; 105; 116].
+Definition s_filter_limit : schema :=
+  [KProps [(nm_filter, JObj []); (nm_limit, JObj [(n_type, JStr n_integer)])]; KAddProps false; KType [TObj]; KRequired [nm_filter]].
+Lemma exclusion_nonvacuous :
+  required_of s_filter_limit = Some [nm_filter] /\ unique_strs [nm_filter] = true /\
+  exclude_names [nm_filter] s_filter_limit =
+    [KProps [(nm_limit, JObj [(n_type, JStr n_integer)])]; KAddProps false; KType [TObj]; KRequired []] /\
+  valid sub_valid_simple (plain (exclude_names [nm_filter] s_filter_limit)) (JObj [(nm_limit, JInt 0)]) = true.
+Proof. repeat split. Qed.
